@@ -177,6 +177,59 @@ def request_path_frames(v):
     v.check('compile-is-guarded-by-self._compile_lock', len(with_stmts) == 1 and ast.unparse(with_stmts[0].items[0].context_expr) == 'self._compile_lock')
 
 
+PER_REQUEST_CLASSES = [
+    'falcon.request:Request', 'falcon.asgi.request:Request', 'falcon.response:Response', 'falcon.asgi.response:Response',
+    'falcon.stream:BoundedStream', 'falcon.asgi.stream:BoundedStream', 'falcon.media.multipart:BodyPart', 'falcon.media.multipart:MultipartForm',
+    'falcon.asgi.multipart:BodyPart', 'falcon.asgi.multipart:MultipartForm', 'falcon.asgi.ws:WebSocket', 'falcon.asgi.ws:_BufferedReceiver',
+    'falcon.util.reader:BufferedReader', 'falcon.asgi.reader:BufferedReader', 'falcon.forwarded:Forwarded', 'falcon.util.structures:Context',
+]
+_MUTABLE_FACTORIES = {'dict', 'list', 'set', 'defaultdict', 'OrderedDict', 'bytearray', 'deque', 'CaseInsensitiveDict', 'Context', 'SimpleCookie'}
+# deliberate process-wide memo tables of pure functions of their key (see (3) in the module docstring)
+_ALLOWED_SHARED = {('falcon.asgi.request:Request', 'get_header', '_name_cache')}
+
+
+def _is_mutable_container(e):
+    if isinstance(e, (ast.Dict, ast.List, ast.Set, ast.ListComp, ast.DictComp, ast.SetComp)):
+        return True
+    if isinstance(e, ast.Call):
+        f = e.func
+        name = f.id if isinstance(f, ast.Name) else (f.attr if isinstance(f, ast.Attribute) else '')
+        return name in _MUTABLE_FACTORIES
+    return False
+
+
+@harness(PROP, 'falcon.request:Request.__init__', name='per_request_objects_own_their_mutable_state')
+def per_request_state_is_per_instance(v):
+    """A mutable container bound at class level (or as a default argument) is ONE object shared by every request of the process: whatever one
+    request stores in it is observed by the others.  Objects created per request must allocate their containers per instance."""
+    if v.concrete:
+        return
+    for target in PER_REQUEST_CLASSES:
+        mod, _, cname = target.partition(':')
+        tree = v.index.module(mod)[0]
+        cls = next((n for n in tree.body if isinstance(n, ast.ClassDef) and n.name == cname), None)
+        v.check('per-request-class-present:' + target, cls is not None)
+        if cls is None:
+            continue
+        shared = []
+        for st in cls.body:
+            name = val = None
+            if isinstance(st, ast.Assign):
+                name, val = ast.unparse(st.targets[0]), st.value
+            elif isinstance(st, ast.AnnAssign) and st.value is not None:
+                name, val = ast.unparse(st.target), st.value
+            if val is not None and name != '__slots__' and _is_mutable_container(val):
+                shared.append('%s = %s' % (name, ast.unparse(val)[:40]))
+            if isinstance(st, (ast.FunctionDef, ast.AsyncFunctionDef)):
+                a = st.args
+                pos = a.posonlyargs + a.args
+                for arg, d in list(zip(pos[len(pos) - len(a.defaults):], a.defaults)) + [(k, d) for k, d in zip(a.kwonlyargs, a.kw_defaults) if d is not None]:
+                    if _is_mutable_container(d) and (target, st.name, arg.arg) not in _ALLOWED_SHARED:
+                        shared.append('%s(%s=%s)' % (st.name, arg.arg, ast.unparse(d)[:40]))
+        v.check('no-mutable-container-shared-between-instances:' + target.split(':')[0].replace('falcon.', '') + '.' + cname, not shared, shared=shared)
+    v.cover('classes-scanned')
+
+
 PURE_CACHED = [
     'falcon.util.misc:http_status_to_code', 'falcon.util.misc:code_to_http_status', 'falcon.util.mediatypes:_parse_media_ranges',
     'falcon.util.mediatypes:_parse_media_type_header' if False else 'falcon.util.mediatypes:_MediaType.parse', 'falcon.util.mediatypes:_MediaRange.parse',
@@ -216,6 +269,9 @@ KILLS = [
     # stale side tables handed to the finder
     (_CP, "        return self._find(\n            path, self._return_values, self._patterns, self._converters, params\n        )\n\n\n_NO_CHILDREN_ERR",
      "        return self._find(path, _return_values, _patterns, _converters, params)\n\n\n_NO_CHILDREN_ERR", 'dispatch-uses-the-current-side-tables'),
+    # a per-request container hoisted to class level (the file's own "fall back to class variable(s) when unset" idiom applied to a dict)
+    ('falcon/asgi/request.py', "    _cached_uri: Optional[str] = None\n", "    _cached_uri: Optional[str] = None\n    _params: dict = {}\n",
+     'no-mutable-container-shared-between-instances:asgi.request.Request'),
     # request state stored on the app object
     ('falcon/app.py', "        req_succeeded = False\n\n        try:\n            if req.method in self._META_METHODS:", "        req_succeeded = False\n        self._last_request = req\n\n        try:\n            if req.method in self._META_METHODS:",
      'no-write-to-app-or-router-state:App.__call__'),
